@@ -235,6 +235,11 @@ def run_refdeal(ck, prop, tier, vh, seed, only_shapes=None):
                 for order in (0, 1, 2):
                     cases.append({'id': 'rd-%d' % len(cases), 'proto': proto, 'n': n, 't': t, 'dealer': dealer, 'shape': shape, 'silent': silent,
                                   'order': order, 'seed': vlib.jseed(seed, len(cases), 77)})
+    # Joint-Feldman, the qualified polynomials sum to zero (a rushing dealer dealing the opposite of the real participant's polynomial)
+    for d in range(3):
+        for order in (0, 1):
+            cases.append({'id': 'rd-%d' % len(cases), 'proto': 'jf', 'n': 3, 't': 1, 'dealer': d, 'shape': 'cancel', 'silent': (d + 2) % 3,
+                          'order': order, 'seed': vlib.jseed(seed, len(cases), 78)})
     cp = os.path.join(vlib.subdir('scripts'), 'refdeal.ndjson')
     with open(cp, 'w') as f:
         for c in cases:
